@@ -293,6 +293,11 @@ Lemma top_explicit : forall id nm ty its tl,
   top_pv (WNode id nm ty its tl) = PDict [("id", PStr (String "b" (String SQ id))); ("name", PStr (name_text nm)); ("type", PStr (ty ++ " '")); ("child_0", body_pv its)].
 Proof. intros. unfold top_pv. rewrite number_children_one. apply with_children_head. Qed.
 
+(* the same for a row whose element NAME may hold colons (UmlBlobDefs.top_head) *)
+Lemma top_explicit_c : forall id nm ty its tl,
+  top_pv_c (WNode id nm ty its tl) = PDict (top_head id nm ty ++ [("child_0", body_pv its)])%list.
+Proof. intros. unfold top_pv_c, top_head. rewrite number_children_one. apply with_children_head. Qed.
+
 (* ---------------------------------------------------------------- (F3) lookups in the entries of a layout *)
 
 Lemma entry_keys_app : forall a b, entry_keys (a ++ b)%list = (entry_keys a ++ entry_keys b)%list.
